@@ -39,3 +39,17 @@ def map_first_field_recursive(case):
             if m["fields"] and m["fields"][0]["type"] == "map" and m["fields"][0]["map_value"]["type"] == "message":
                 return True
     return False
+
+
+def streaming_void(case):
+    for _f, _s, m in M.all_methods(_api(case)):
+        if m.get("ss") and m["output"] == ".google.protobuf.Empty":
+            return True
+    return False
+
+
+def client_streaming_void(case):
+    for _f, _s, m in M.all_methods(_api(case)):
+        if m.get("cs") and not m.get("ss") and m["output"] == ".google.protobuf.Empty":
+            return True
+    return False
